@@ -249,6 +249,68 @@ def units(run, fx):
             run.held('UNITS', inst, fn.where(), '%d font != NULL paths, %d unit-relevant operations, no design-unit/pixel mix' % (uc.npaths, uc.nops))
 
 
+def widthunits(run, fx):
+    """UNITS in Segment::justify: the target width arrives in the font's units (pixels) and everything it is compared with is in design
+    units, so it is divided by the scale ONCE, before anything else reads it: the conversion dominates every other read of the
+    parameter (with gr_justEndInline a conversion tucked into the trailing-space block never runs)."""
+    fn = fx.one('graphite2::Segment::justify')
+    ps = [p_ for p_ in fn.f['params'] if p_['n'] == 'width' or ((p_.get('t') or '') == 'float')]
+    inst = 'justify converts the target width to design units before it is used'
+    if len(ps) != 1:
+        run.broken('UNITS', inst, 'the float width parameter of Segment::justify was not found', fn.where())
+        return
+    vid = ps[0]['vid']
+    conv = []
+    for _, e in fn.elements():
+        if e['k'] in ('BinaryOperator', 'CompoundAssignOperator') and e.get('op') in ('=', '/=') and fn.strip(e['c'][0]).get('vid') == vid:
+            r = fn.strip_all_casts(fn.N(e['c'][1]))
+            if e['op'] == '/=' or (r['k'] == 'BinaryOperator' and r['op'] == '/' and fn.strip_all_casts(fn.N(r['c'][0])).get('vid') == vid):
+                conv.append(e)
+    if len(conv) != 1:
+        run.violated('UNITS', inst, fn.where(), 'Segment::justify has %d conversions `width = width / scale`, expected exactly one' % len(conv))
+        return
+    ce = conv[0]
+    doms_ = fn.dominators()
+    cb = fn.block_of[ce['i']]
+    inner = {x['i'] for x in fn.walk(ce['i']) if isinstance(x, dict) and 'i' in x}
+    bad = None
+    n = 0
+    par = fn.parents()
+
+    def unit_free(e):
+        # the sign of the width and handing it back unchanged do not depend on its unit
+        cur = e['i']
+        for _ in range(4):
+            ups = par.get(cur) or []
+            if not ups:
+                return False
+            p_ = fn.nodes[ups[0]]
+            if p_['k'] == 'ReturnStmt':
+                return True
+            if p_['k'] == 'BinaryOperator' and p_.get('op') in ('<', '>', '<=', '>=', '==', '!='):
+                return any(fn.strip_all_casts(fn.N(c_)).get('v') in (0, 0.0) or fn.strip_all_casts(fn.N(c_)).get('fv') == 0.0 for c_ in p_['c'])
+            if not (p_['k'].endswith('CastExpr') or p_['k'] == 'ParenExpr'):
+                return False
+            cur = p_['i']
+        return False
+    for _, e in fn.elements():
+        if e['k'] == 'DeclRefExpr' and e.get('vid') == vid and e['i'] not in inner and not unit_free(e):
+            n += 1
+            b = fn.block_of[e['i']]
+            if b == cb:
+                if fn.pos_of[e['i']] < fn.pos_of[ce['i']]:
+                    bad = e
+            elif cb not in doms_[b]:
+                bad = e
+    if bad is not None:
+        run.violated('UNITS', inst, fn.loc(bad), 'Segment::justify reads `width` at %s on a path that has not passed `%s`: the pixel width is compared with design-unit lengths -- with a font '
+                     'the line is stretched or shrunk to a width that is off by the scale factor' % (fn.loc(bad), fn.render(ce)))
+    elif n < 1:
+        run.broken('UNITS', inst, 'no unit-dependent read of width found', fn.where())
+    else:
+        run.held('UNITS', inst, fn.loc(ce), '`%s` dominates the other %d reads of width' % (fn.render(ce), n))
+
+
 def run(run):
     fx = run.facts('Q0')
     fontflow(run, fx)
@@ -258,6 +320,7 @@ def run(run):
     ppmflow(run, fx)
     units(run, fx)
     sameterms(run, fx)
+    widthunits(run, fx)
     from . import posexec
     posexec.finalise_exec(run, fx, rules=('UNITS',), deep=getattr(run, 'tier', 'quick') != 'quick')      # Slot::finalise with symbolic floats: font run = scale x design-unit run
     fontuse(run, fx)
